@@ -1832,18 +1832,32 @@ def sequence_to_pianoroll(
   control_changes = np.zeros(
       (int(sequence.total_time * frames_per_second + 1), 128), dtype=np.int32)
 
+  def time_to_frames(time):
+    """Converts a time to a (fractional) frame position."""
+    frames = time * frames_per_second
+    # A time on the frame grid (e.g. one produced by pianoroll_to_note_sequence
+    # as frame * (1 / frames_per_second)) can miss the integer by a few ulps
+    # (7 * 0.01 * 100 == 7.000000000000001); snap it back so that floor/ceil
+    # below do not move it into a neighboring frame.
+    nearest = round(frames)
+    if abs(frames - nearest) <= 1e-9 * max(1.0, abs(frames)):
+      return float(nearest)
+    return frames
+
   def frames_from_times(start_time, end_time):
     """Converts start/end times to start/end frames."""
+    start_frames = time_to_frames(start_time)
+    end_frames = time_to_frames(end_time)
     # Will round down because note may start or end in the middle of the frame.
-    start_frame = int(start_time * frames_per_second)
-    start_frame_occupancy = start_frame + 1 - start_time * frames_per_second
+    start_frame = int(start_frames)
+    start_frame_occupancy = start_frame + 1 - start_frames
     # check for > 0.0 to avoid possible numerical issues
     if (min_frame_occupancy_for_label > 0.0 and
         start_frame_occupancy < min_frame_occupancy_for_label):
       start_frame += 1
 
-    end_frame = int(math.ceil(end_time * frames_per_second))
-    end_frame_occupancy = end_time * frames_per_second - start_frame - 1
+    end_frame = int(math.ceil(end_frames))
+    end_frame_occupancy = end_frames - start_frame - 1
     if (min_frame_occupancy_for_label > 0.0 and
         end_frame_occupancy < min_frame_occupancy_for_label):
       end_frame -= 1
